@@ -21,7 +21,13 @@ import subprocess
 
 from vcheck import coq_list
 
-TRACE_SET = "trace=file,desc,exit_group"
+# every call that can change a directory entry, file contents or mode, plus the stat family and exit_group
+# (read is left out: its hex dump of a big file dominates the run time and it cannot change anything)
+TRACE_SET = ("trace=?open,openat,?openat2,write,pwrite64,writev,pwritev,pwritev2,ftruncate,fallocate,lseek,"
+             "copy_file_range,sendfile,dup,?dup2,dup3,fcntl,fchmod,?chmod,fchmodat,?fchmodat2,fsync,fdatasync,close,"
+             "?rename,renameat,renameat2,?unlink,unlinkat,?link,linkat,?symlink,symlinkat,?mkdir,mkdirat,?mknod,"
+             "mknodat,?rmdir,truncate,newfstatat,fstat,?lstat,?stat,statx,exit_group,execve,getdents64")
+BIG_CLASSES = ("write", "fsync", "fchmod", "renameat", "renameat2", "rename", "unlinkat", "exit_group")
 MUT_CLASSES = ("openat", "open", "write", "fsync", "fdatasync", "fchmod", "fchmodat", "chmod", "close", "renameat",
                "renameat2", "rename", "unlinkat", "unlink", "newfstatat", "fstat", "ftruncate", "pwrite64", "writev",
                "exit_group")
@@ -640,6 +646,8 @@ def run(ctx):
         hit = set()
         for S in sorted(counts):
             if S not in MUT_CLASSES and not thorough:
+                continue
+            if len(c["orig"]) > 30000 and not thorough and S not in BIG_CLASSES:
                 continue
             if S in ("execve", "mmap", "munmap"):
                 continue
